@@ -1500,6 +1500,11 @@ def known_findings(ck: Check) -> None:
         cfg = Cfg(**{k: (tuple(map(tuple, v)) if k == "aliases" else v) for k, v in w.get("cfg", {}).items()})
         if w["level"] == "function":
             still = real_valid(w["kind"], cfg, w["name"], w.get("excludes"), False, False, timeout=1.0) == "fuel"
+        elif w["level"] == "enum_e2e":
+            from . import enum_callers
+
+            enum_callers.names_case(probe, camp, w["enum_values"], cfg, w["model"], w["position"])
+            still = bool(probe.failures)
         elif w["level"] == "typeddict_inheritance":
             td_case(probe, camp, w["td_doc"], cfg, w.get("opts", {}), w.get("target", "3.12"), shrink=False)
             still = bool(probe.failures)
